@@ -237,7 +237,7 @@ PROPS["C09"] = dict(
                  quick=["--scenarios", "D1f,D6,D8,D9", "--bound", "1"], thorough=["--scenarios", MC_ALL, "--bound", "2"])],
 )
 PROPS["C10"] = dict(
-    level="model_checking",
+    level="model_checking", deadline_quick=600,
     technique="stateless schedule exploration with deviation bounding under ThreadSanitizer (fiber API, no synchronisation implied by a switch; modelled mutexes announced as acquire/release) and under AddressSanitizer: a happens-before race oracle evaluated on every explored interleaving",
     rule="as C09; oracle: zero ThreadSanitizer reports (halt on first) and zero AddressSanitizer reports in every explored schedule of every scenario; distinct = distinct result vectors",
     distinct_key="outcomes",
@@ -245,7 +245,7 @@ PROPS["C10"] = dict(
     stages=[dict(name="mc-tsan", driver="mc", flavour="tsan", args=["--prop", "C10"],
                  quick=["--scenarios", MC_ALL, "--bound", "1"], thorough=["--scenarios", MC_ALL, "--bound", "2"]),
             dict(name="mc-tsan2", driver="mc", flavour="tsan", args=["--prop", "C10"], tiers=["quick"],
-                 quick=["--scenarios", "D15,D3,D10,D11,D8", "--bound", "2"]),
+                 quick=["--scenarios", "D15,D10,D11", "--bound", "2"]),
             dict(name="mc-asan", driver="mc", flavour="asan", args=["--prop", "C10"],
                  quick=["--scenarios", "D3,D8,D11,D15", "--bound", "2"], thorough=["--scenarios", MC_ALL, "--bound", "2", "--io", "1"])],
 )
